@@ -8,6 +8,14 @@
   `can_split`; model PM/Structure.lean, helpers Proofs/Structure.lean) never produce an answer that
   crosses the boundary of an isolating ancestor.  `S.isolating n` is the `isolating` flag of the
   type of `n`; ancestors, `start`/`end_` windows, `before`/`after` are those of `RPos` (C09).
+
+  Third part (the editor-level flows): a selection inside an isolating node, the library's own
+  `block_range` of it (`blockRange_inside_ancestor` / `_isolating`; node-level case
+  `blockRange_node_level_is_node` / `blockRange_collapsed_is_node`), then `lift_target` + `lift`
+  (`lift_of_selection_inside`), `wrap` (`wrap_of_selection_inside`), `can_split` + `split`
+  (`split_of_position_inside`): the step lies inside the node, everything outside is unchanged and the node
+  stays closed (`around_keeps_node_closed`); `set_node_markup` / `set_block_type` addressed at nodes inside
+  (`setNodeMarkup_inside`, `setBlockType_inside_partial`).  Helpers: Proofs/IsoFlows.lean.
 -/
 import PM.Monitor
 import PM.Structure
@@ -16,6 +24,9 @@ import Proofs.Respects
 import Proofs.Structure
 import Proofs.RangeOps
 import Proofs.ReplaceRange
+import Proofs.IsoFlows
+import Proofs.TypePlan
+import Props.C09
 namespace PM.C18
 open PM
 
@@ -553,5 +564,625 @@ example :
     replaceRangeCalls S doc 4 5 ⟨[p [120]], 1, 1⟩ = some [(4, 5, ⟨[p [120]], 1, 1⟩)] ∧
     replaceRangeWithTarget S doc 3 3 row = some (1, 1) ∧
     replaceRangeWithCalls S doc 3 3 row = some [(1, 1, ⟨[row], 0, 0⟩)] := by decide
+
+/-! ## The editor-level flows: a selection inside an isolating node → `block_range` → lift / split / wrap
+
+The theorems above quantify over ranges; an editor command does not pick a range, it asks the library for
+one: `$from.block_range($to)` for the selection, then `lift_target(range)` and `tr.lift(range, target)` (or
+`find_wrapping` and `tr.wrap`, or `can_split` and `tr.split`).  The theorems below follow that flow
+through the models (`blockRange` PM/Resolve.lean, specs Props/C09.lean; `liftTarget` / `canSplit`
+PM/Structure.lean; `liftStep` / `splitStep` / `wrapStep` PM/StructEdit.lean, all tied exactly).
+
+Setting, as in `deleteRange_insideNode`: `f ≤ t` resolve to `rf`, `rt`; their depth-`k` ancestor (`1 ≤ k`)
+is the same node (`rf.start k = rt.start k`); it occupies `[a, b)` with `a = rf.start k − 1` its open token
+and `b − 1 = rf.end_ k` its close token, so `a < f` and `t < b` hold by construction.  -/
+
+/-- a non-root ancestor's content window lies strictly inside the document -/
+theorem ancestor_window_in_doc {doc : Node} {pos : Nat} {r : RPos} (hr : doc.resolve pos = some r)
+    (k : Nat) (hk1 : 1 ≤ k) (hk : k ≤ r.depth) :
+    1 ≤ r.start k ∧ r.end_ k + 1 ≤ fsize doc.kids := by
+  have R := resolve_resolved hr
+  have n := R.nestW 0 k (by omega) hk
+  have e0 : r.end_ 0 = fsize doc.kids := by simp [RPos.end_, RPos.start, R.node_zero]
+  have s0 : r.start 0 = 0 := by simp [RPos.start]
+  omega
+
+/-- when `block_range` starts its search at or below the ancestor: a position deeper than the node
+    always does; a position directly in the node's content does when the selection is not collapsed
+    and the node does not hold inline content (`brShrink`, Props/C09.lean) -/
+theorem brShrink_deep (S : Schema) (f t : Nat) (rf : RPos) (k : Nat) (hkf : k ≤ rf.depth)
+    (h : k < rf.depth ∨ (f < t ∧ (S.nodeType (S.tyOf (rf.node k))).inlineContent = false)) :
+    k + C09.brShrink S rf f t ≤ rf.depth := by
+  have hc : C09.brShrink S rf f t ≤ 1 := by unfold C09.brShrink; split <;> omega
+  rcases h with h | ⟨hlt, hinl⟩
+  · omega
+  · rcases Nat.lt_or_ge k rf.depth with h | h
+    · omega
+    · have hk : k = rf.depth := by omega
+      have : C09.brShrink S rf f t = 0 := by
+        unfold C09.brShrink RPos.parent
+        rw [← hk, hinl]
+        have : (f == t) = false := by simp; omega
+        simp [this]
+      omega
+
+/-- **the block range of a selection inside a node lies inside that node's content** (for every common
+    ancestor, isolating or not): with `k + brShrink ≤ depth(f)` — the search of `block_range` starts
+    at or below the node — the answer `(d, s, e)` has `d ≥ k` and
+    `start(k) ≤ s ≤ f`, `t ≤ e ≤ end(k)`.  (The seeded `<` for `<=` at the end boundary answered
+    depth `k − 1` for a selection reaching the end of the node's content: the node itself.) -/
+theorem blockRange_inside_ancestor (S : Schema) (doc : Node) (f t : Nat) (hft : f ≤ t) (rf rt : RPos)
+    (hf : doc.resolve f = some rf) (ht : doc.resolve t = some rt)
+    (k : Nat) (hkf : k ≤ rf.depth) (hkt : k ≤ rt.depth) (hsame : rf.start k = rt.start k)
+    (hdeep : k + C09.brShrink S rf f t ≤ rf.depth) :
+    ∃ d s e, blockRange S doc f t = .ok (some (d, s, e)) ∧
+      k ≤ d ∧ d ≤ rf.depth ∧ d ≤ rt.depth ∧
+      rf.before (d + 1) = some s ∧ rt.after (d + 1) = some e ∧
+      rf.start k ≤ s ∧ s ≤ f ∧ t ≤ e ∧ e ≤ rf.end_ k := by
+  have Rf := resolve_resolved hf
+  have Rt := resolve_resolved ht
+  have pf := Rf.pos_in k hkf
+  have pt := Rt.pos_in k hkt
+  obtain ⟨_, _, he, _⟩ := same_ancestors Rf Rt k (rf.start k) hkf hkt (Nat.le_refl _) (by omega)
+    (by omega) (by omega) k (Nat.le_refl _)
+  obtain ⟨⟨x, hx⟩, hsome, hnone, _⟩ := C09.blockRange_depth_spec S doc f t hft rf hf Rt.le
+  cases x with
+  | none => exact absurd (by omega) ((hnone.mp hx) k hdeep)
+  | some x =>
+    obtain ⟨d, s, e⟩ := x
+    obtain ⟨_, _, _, _, hmax⟩ := hsome d s e hx
+    have hkd : k ≤ d := by
+      rcases Nat.lt_or_ge d k with hlt | hge
+      · exact absurd (by omega) (hmax k hlt hdeep)
+      · exact hge
+    obtain ⟨b1, b2, _, _, b5, b6, _, _, b9, b10, b11, b12, _⟩ :=
+      C09.blockRange_bounds_spec S doc f t hft rf rt hf ht d s e hx
+    have n := Rf.nestW k d hkd b1
+    exact ⟨d, s, e, hx, hkd, b1, b2, b5, b6, by omega, b10, b11, by omega⟩
+
+/-- … with the node's own positions: for the node occupying `[a, b)` (`a = start(k) − 1` its open
+    token, `b − 1 = end(k)` its close token) every answer of `block_range` has depth `≥ k` and
+    `a + 1 ≤ start`, `end ≤ b − 1` -/
+theorem blockRange_inside_isolating (S : Schema) (doc : Node) (f t : Nat) (hft : f ≤ t) (rf rt : RPos)
+    (hf : doc.resolve f = some rf) (ht : doc.resolve t = some rt)
+    (k : Nat) (hk1 : 1 ≤ k) (hkf : k ≤ rf.depth) (hkt : k ≤ rt.depth) (hsame : rf.start k = rt.start k)
+    (hdeep : k + C09.brShrink S rf f t ≤ rf.depth)
+    (d s e : Nat) (h : blockRange S doc f t = .ok (some (d, s, e))) :
+    k ≤ d ∧ (rf.start k - 1) + 1 ≤ s ∧ e ≤ (rf.end_ k + 1) - 1 ∧ s ≤ f ∧ t ≤ e := by
+  obtain ⟨hs1, _⟩ := ancestor_window_in_doc hf k hk1 hkf
+  obtain ⟨d', s', e', h', r1, _, _, _, _, r2, r3, r4, r5⟩ :=
+    blockRange_inside_ancestor S doc f t hft rf rt hf ht k hkf hkt hsame hdeep
+  rw [h'] at h
+  simp only [Except.ok.injEq, Option.some.injEq, Prod.mk.injEq] at h
+  obtain ⟨rfl, rfl, rfl⟩ := h
+  exact ⟨r1, by omega, by omega, r3, r4⟩
+
+/-- **the node-level case** — the search starts *above* the node (`depth(f) = k` and `brShrink = 1`: a
+    collapsed selection directly in the node's content, or any selection directly in a node that holds
+    inline content): the block range is the node itself, at depth `k − 1`, from before its open token
+    to after its close token.  This is the documented rule ("the range around the parent block"), a
+    range *around* the node: lifting or wrapping it moves or wraps the isolating node as a whole. -/
+theorem blockRange_node_level_is_node (S : Schema) (doc : Node) (f t : Nat) (hft : f ≤ t) (rf rt : RPos)
+    (hf : doc.resolve f = some rf) (ht : doc.resolve t = some rt)
+    (k : Nat) (hk1 : 1 ≤ k) (hkf : rf.depth = k) (hkt : k ≤ rt.depth) (hsame : rf.start k = rt.start k)
+    (hc : C09.brShrink S rf f t = 1) :
+    blockRange S doc f t = .ok (some (k - 1, rf.start k - 1, rf.end_ k + 1)) := by
+  have Rf := resolve_resolved hf
+  have Rt := resolve_resolved ht
+  have pt := Rt.pos_in k hkt
+  have pf := Rf.pos_in k (by omega)
+  obtain ⟨_, _, he, _⟩ := same_ancestors Rf Rt k (rf.start k) (by omega) hkt (Nat.le_refl _) (by omega)
+    (by omega) (by omega) k (Nat.le_refl _)
+  obtain ⟨⟨x, hx⟩, hsome, _, hnone⟩ := C09.blockRange_depth_spec S doc f t hft rf hf Rt.le
+  cases x with
+  | none => have := (hnone.mp hx).1; omega
+  | some x =>
+    obtain ⟨d, s, e⟩ := x
+    obtain ⟨_, hdc, _, _, hmax⟩ := hsome d s e hx
+    have n := Rf.nestW (k - 1) k (by omega) (by omega)
+    have hd : d = k - 1 := by
+      rcases Nat.lt_or_ge d (k - 1) with hlt | hge
+      · exact absurd (by omega) (hmax (k - 1) hlt (by omega))
+      · omega
+    obtain ⟨_, _, _, _, _, _, b7, b8, _⟩ :=
+      C09.blockRange_bounds_spec S doc f t hft rf rt hf ht d s e hx
+    rw [if_neg (by omega)] at b7 b8
+    rw [hx, hd, b7, b8, hd, show k - 1 + 1 = k by omega, he]
+
+/-- **collapsed selection directly in the node's content**: `$pos.block_range()` is the node itself -/
+theorem blockRange_collapsed_is_node (S : Schema) (doc : Node) (f : Nat) (rf : RPos)
+    (hf : doc.resolve f = some rf) (k : Nat) (hk1 : 1 ≤ k) (hkf : rf.depth = k) :
+    blockRange S doc f f = .ok (some (k - 1, rf.start k - 1, rf.end_ k + 1)) :=
+  blockRange_node_level_is_node S doc f f (Nat.le_refl _) rf rf hf hf k hk1 hkf (by omega) rfl
+    (by simp [C09.brShrink])
+
+/-- a step that satisfies the monitor `insideNode` for the depth-`k` ancestor of a resolved position
+    leaves every token up to and including that node's open token and from its close token on
+    unchanged (`inside_preserves_outside` with the node's positions spelled out) -/
+theorem inside_ancestor_preserves_outside (S : Schema) (doc doc' : Node) (pos : Nat) (r : RPos)
+    (hr : doc.resolve pos = some r) (k : Nat) (hk1 : 1 ≤ k) (hk : k ≤ r.depth) (st : Step)
+    (hm : insideNode (r.start k - 1) (r.end_ k + 1) st = true)
+    (hwf : ∀ f t gf gt sl i c, st = .replaceAround f t gf gt sl i c → sl.wf = true ∧ (i : Int) ≤ sl.size ∧ f ≤ gf ∧ gf ≤ gt ∧ gt ≤ t)
+    (h : S.apply st doc = .ok doc') :
+    (ftoks doc'.kids).take (r.start k) = (ftoks doc.kids).take (r.start k) ∧
+    (ftoks doc'.kids).drop (r.end_ k + fsize doc'.kids - fsize doc.kids) = (ftoks doc.kids).drop (r.end_ k) ∧
+    fsize doc.kids ≤ r.end_ k + fsize doc'.kids := by
+  obtain ⟨h1, h2⟩ := ancestor_window_in_doc hr k hk1 hk
+  have := inside_preserves_outside S doc doc' (r.start k - 1) (r.end_ k + 1) st h2 hm hwf h
+  rw [show r.start k - 1 + 1 = r.start k by omega, show r.end_ k + 1 - 1 = r.end_ k by omega] at this
+  exact this
+
+/-- **a replace-around step inside an ancestor keeps that ancestor closed** when (i) the slice's open
+    start does not reach the ancestor's level — the nesting level at the step's start is at least
+    `k + openStart` — and (ii) the gap is balanced and none of its prefixes closes more than it opened
+    (a node range).  Then, if the step applies, inside the ancestor's new content window
+    `[start(k), end(k) + Δ]` (`Δ` the size change) the nesting level never drops below `k`: none of the
+    tokens in it closes the ancestor, whose open token is still matched by its old close token — the
+    node is neither split nor merged with a neighbour. -/
+theorem around_keeps_node_closed (S : Schema) (doc doc' : Node) (pos : Nat) (r : RPos)
+    (hr : doc.resolve pos = some r) (k : Nat) (hk : k ≤ r.depth)
+    (F T gs ge : Nat) (sl : Slice) (i : Nat) (c : Bool)
+    (hwf : sl.wf = true) (hi : (i : Int) ≤ sl.size)
+    (h1 : r.start k ≤ F) (h2 : F ≤ gs) (h3 : gs ≤ ge) (h4 : ge ≤ T) (h5 : T ≤ r.end_ k)
+    (hopen : (k : Int) + sl.openStart ≤ balance ((ftoks doc.kids).take F))
+    (hgap0 : balance (C09.window (ftoks doc.kids) gs (ge - gs)) = 0)
+    (hgap : ∀ m, 0 ≤ balance ((C09.window (ftoks doc.kids) gs (ge - gs)).take m))
+    (h : S.apply (.replaceAround F T gs ge sl i c) doc = .ok doc') :
+    ∀ j, r.start k ≤ j → j + fsize doc.kids ≤ r.end_ k + fsize doc'.kids →
+      (k : Int) ≤ balance ((ftoks doc'.kids).take j) := by
+  have R := resolve_resolved hr
+  have n0 := R.nestW 0 k (by omega) hk
+  have e0 : r.end_ 0 = fsize doc.kids := by simp [RPos.end_, RPos.start, R.node_zero]
+  obtain ⟨etoks, hT, _⟩ := apply_replaceAround_toks S doc doc' F T gs ge sl i c hwf hi ⟨h2, h3, h4⟩ h
+  unfold C09.window at hgap0 hgap
+  generalize hgapdef : ((ftoks doc.kids).drop gs).take (ge - gs) = gap at etoks hgap0 hgap
+  have hgl : gap.length = ge - gs := by
+    rw [← hgapdef]; simp only [List.length_take, List.length_drop, ftoks_length]; omega
+  have etoks' : ftoks doc'.kids = (ftoks doc.kids).take F ++ (sl.toks.take i ++ gap ++ sl.toks.drop i) ++
+      (ftoks doc.kids).drop T := by rw [etoks]; simp only [List.append_assoc]
+  have hlen := congrArg List.length etoks'
+  simp only [List.length_append, List.length_take, List.length_drop, ftoks_length, hgl] at hlen
+  have hsum : min i sl.toks.length + (sl.toks.length - i) = sl.toks.length := by omega
+  intro j hj1 hj2
+  have hb := splice_balance (ftoks doc.kids) (sl.toks.take i ++ gap ++ sl.toks.drop i) F T
+    (balance_ftoks _) (by rw [← etoks']; exact balance_ftoks _)
+  rw [etoks']
+  refine splice_keeps_level (ftoks doc.kids) _ (r.start k) (r.end_ k) F T k (by omega) h1 h5
+    (by rw [ftoks_length]; omega) (fun j' a b => balance_in_ancestor hr k hk j' a b) ?_ hb j hj1 ?_
+  · intro n
+    have := around_prefix_level sl hwf i gap hgap hgap0 n
+    omega
+  · simp only [List.length_append, List.length_take, List.length_drop, hgl]
+    omega
+
+/-- **lift of a selection inside an isolating node**: the selection `f ≤ t` lies inside the content of
+    an isolating node (depth `k`; not at node level, `hdeep`), the range is the library's own
+    `block_range`, the target its own `lift_target`, the step the one `tr.lift(range, target)` builds.
+    Then the target stays at or below the node (`k ≤ target`), the step's outer range lies strictly
+    between the node's open and close token, and if it applies, every token up to and including the
+    node's open token and from its close token on is unchanged. -/
+theorem lift_of_selection_inside (S : Schema) (doc doc' : Node) (f t : Nat) (hft : f ≤ t) (rf rt : RPos)
+    (hf : doc.resolve f = some rf) (ht : doc.resolve t = some rt)
+    (k : Nat) (hk1 : 1 ≤ k) (hkf : k ≤ rf.depth) (hkt : k ≤ rt.depth) (hsame : rf.start k = rt.start k)
+    (hiso : S.isolating (rf.node k) = true)
+    (hdeep : k + C09.brShrink S rf f t ≤ rf.depth)
+    (d s e : Nat) (hbr : blockRange S doc f t = .ok (some (d, s, e)))
+    (tg : Nat) (htg : liftTarget S doc f t d = some (some tg))
+    (st : Step) (hst : liftStep doc f t d tg = .ok st)
+    (h : S.apply st doc = .ok doc') :
+    k ≤ tg ∧ tg < d ∧
+    insideNode (rf.start k - 1) (rf.end_ k + 1) st = true ∧
+    (ftoks doc'.kids).take (rf.start k) = (ftoks doc.kids).take (rf.start k) ∧
+    (ftoks doc'.kids).drop (rf.end_ k + fsize doc'.kids - fsize doc.kids) = (ftoks doc.kids).drop (rf.end_ k) ∧
+    fsize doc.kids ≤ rf.end_ k + fsize doc'.kids ∧
+    ∀ j, rf.start k ≤ j → j + fsize doc.kids ≤ rf.end_ k + fsize doc'.kids →
+      (k : Int) ≤ balance ((ftoks doc'.kids).take j) := by
+  have Rf := resolve_resolved hf
+  have Rt := resolve_resolved ht
+  have pf := Rf.pos_in k hkf
+  have pt := Rt.pos_in k hkt
+  obtain ⟨_, _, he, _⟩ := same_ancestors Rf Rt k (rf.start k) hkf hkt (Nat.le_refl _) (by omega)
+    (by omega) (by omega) k (Nat.le_refl _)
+  obtain ⟨_, _, _, _, bs, be, _, _, _, _, _, _, _, bg0, bg⟩ :=
+    C09.blockRange_bounds_spec S doc f t hft rf rt hf ht d s e hbr
+  obtain ⟨hkd, _⟩ := blockRange_inside_isolating S doc f t hft rf rt hf ht k hk1 hkf hkt hsame hdeep d s e hbr
+  have hktg := liftTarget_stays_inside S doc f t d tg rf rt hf ht htg k hkd hiso
+  obtain ⟨htd, hdf, hdt, _⟩ := liftTarget_not_across_isolating S doc f t d tg rf rt hf ht htg
+  simp only [liftStep, hf, ht] at hst
+  obtain ⟨_, _, F, T, gs, ge, sl, i, rfl, g1, g2, w1, w2, w3, w4, w5, w6, w7, w8⟩ :=
+    liftStepR_inside hf ht hft d tg (by omega) st hst
+  rw [bs] at g1
+  rw [be] at g2
+  simp only [Option.some.injEq] at g1 g2
+  subst g1 g2
+  have nf := Rf.nestW k tg hktg (by omega)
+  have nt := Rt.nestW k tg hktg (by omega)
+  obtain ⟨hs1, _⟩ := ancestor_window_in_doc hf k hk1 hkf
+  have hm : insideNode (rf.start k - 1) (rf.end_ k + 1) (.replaceAround F T s e sl i true) = true := by
+    simp only [insideNode, Bool.and_eq_true, decide_eq_true_eq]
+    omega
+  obtain ⟨o1, o2, o3⟩ := inside_ancestor_preserves_outside S doc doc' f rf hf k hk1 hkf _ hm
+    (by
+      intro f' t' gf gt sl' i' c e'
+      simp only [Step.replaceAround.injEq] at e'
+      obtain ⟨rfl, rfl, rfl, rfl, rfl, rfl, _⟩ := e'
+      exact ⟨w1, w2, w3, w4, w5⟩) h
+  refine ⟨hktg, htd, hm, o1, o2, o3, ?_⟩
+  -- the level at the step's start: at least `d` in front of the range, one less per token moved over
+  have lv := balance_take_before hf d s bs
+  have lv2 := balance_take_sub (ftoks doc.kids) s (s - F)
+  rw [show s - (s - F) = F by omega] at lv2
+  exact around_keeps_node_closed S doc doc' f rf hf k hkf F T s e sl i true w1 w2 (by omega) w3 w4 w5
+    (by omega) (by omega) bg0 bg h
+
+/-- **wrap of a selection inside an isolating node**: the range is the library's own `block_range` of
+    the selection, the wrappers are arbitrary (in particular those `find_wrapping(range, type)` answers);
+    the step `tr.wrap(range, wrappers)` builds covers exactly the range, which lies inside the node's
+    content, so if it applies, everything up to and including the node's open token and from its close
+    token on is unchanged -/
+theorem wrap_of_selection_inside (S : Schema) (doc doc' : Node) (f t : Nat) (hft : f ≤ t) (rf rt : RPos)
+    (hf : doc.resolve f = some rf) (ht : doc.resolve t = some rt)
+    (k : Nat) (hk1 : 1 ≤ k) (hkf : k ≤ rf.depth) (hkt : k ≤ rt.depth) (hsame : rf.start k = rt.start k)
+    (hdeep : k + C09.brShrink S rf f t ≤ rf.depth)
+    (d s e : Nat) (hbr : blockRange S doc f t = .ok (some (d, s, e)))
+    (ws : List (TypeId × Attrs))
+    (st : Step) (hst : wrapStep S doc f t d ws = .ok st)
+    (h : S.apply st doc = .ok doc') :
+    (∃ sl, st = .replaceAround s e s e sl ws.length true) ∧
+    insideNode (rf.start k - 1) (rf.end_ k + 1) st = true ∧
+    (ftoks doc'.kids).take (rf.start k) = (ftoks doc.kids).take (rf.start k) ∧
+    (ftoks doc'.kids).drop (rf.end_ k + fsize doc'.kids - fsize doc.kids) = (ftoks doc.kids).drop (rf.end_ k) ∧
+    fsize doc.kids ≤ rf.end_ k + fsize doc'.kids ∧
+    ∀ j, rf.start k ≤ j → j + fsize doc.kids ≤ rf.end_ k + fsize doc'.kids →
+      (k : Int) ≤ balance ((ftoks doc'.kids).take j) := by
+  obtain ⟨_, _, _, _, _, _, _, _, _, _, _, _, _, bg0, bg⟩ :=
+    C09.blockRange_bounds_spec S doc f t hft rf rt hf ht d s e hbr
+  obtain ⟨d', s', e', h', _, _, _, q1, q2, q3, _, _, q4⟩ :=
+    blockRange_inside_ancestor S doc f t hft rf rt hf ht k hkf hkt hsame hdeep
+  rw [h'] at hbr
+  simp only [Except.ok.injEq, Option.some.injEq, Prod.mk.injEq] at hbr
+  obtain ⟨rfl, rfl, rfl⟩ := hbr
+  simp only [wrapStep, hf, ht] at hst
+  obtain ⟨s2, e2, sl, rfl, p1, p2, w1, w2, w3, hos⟩ := wrapStepR_inside S hf ht hft d' ws st hst
+  rw [q1] at p1
+  rw [q2] at p2
+  simp only [Option.some.injEq] at p1 p2
+  subst p1 p2
+  obtain ⟨hs1, _⟩ := ancestor_window_in_doc hf k hk1 hkf
+  have hm : insideNode (rf.start k - 1) (rf.end_ k + 1) (.replaceAround s' e' s' e' sl ws.length true) = true := by
+    simp only [insideNode, Bool.and_eq_true, decide_eq_true_eq]
+    omega
+  obtain ⟨o1, o2, o3⟩ := inside_ancestor_preserves_outside S doc doc' f rf hf k hk1 hkf _ hm
+    (by
+      intro f' t' gf gt sl' i' c e'
+      simp only [Step.replaceAround.injEq] at e'
+      obtain ⟨rfl, rfl, rfl, rfl, rfl, rfl, _⟩ := e'
+      exact ⟨w1, w2, Nat.le_refl _, w3, Nat.le_refl _⟩) h
+  refine ⟨⟨sl, rfl⟩, hm, o1, o2, o3, ?_⟩
+  have lv := balance_in_ancestor hf k hkf s' q3 (by omega)
+  exact around_keeps_node_closed S doc doc' f rf hf k hkf s' e' s' e' sl ws.length true w1 w2 q3
+    (Nat.le_refl _) w3 (Nat.le_refl _) q4 (by rw [hos]; omega) bg0 bg h
+
+
+/-- **split at a position inside an isolating node**: `can_split(doc, pos, depth)` approved, the step is
+    the one `tr.split(pos, depth)` builds.  Then all `depth` nodes that get split lie strictly below
+    the isolating ancestor (`depth + k ≤ depth(pos)`), the step is an insertion at `pos` — between the
+    node's open and close token —, and if it applies: every token up to and including the node's open
+    token and from its close token on is unchanged, the content grows by `2·depth` tokens, and **the
+    node is not split**: inside its new content window `[start(k), end(k) + 2·depth]` the nesting level
+    never drops below `k`, so none of the inserted close tokens closes the isolating node — its open
+    token is still matched by its old close token. -/
+theorem split_of_position_inside (S : Schema) (doc doc' : Node) (pos depth : Nat) (r : RPos)
+    (hr : doc.resolve pos = some r)
+    (k : Nat) (hk1 : 1 ≤ k) (hk : k ≤ r.depth) (hiso : S.isolating (r.node k) = true)
+    (hcs : canSplit S doc pos depth = some true)
+    (st : Step) (hst : splitStep doc pos depth = .ok st)
+    (h : S.apply st doc = .ok doc') :
+    depth + k ≤ r.depth ∧
+    insideNode (r.start k - 1) (r.end_ k + 1) st = true ∧
+    (ftoks doc'.kids).take (r.start k) = (ftoks doc.kids).take (r.start k) ∧
+    (ftoks doc'.kids).drop (r.end_ k + fsize doc'.kids - fsize doc.kids) = (ftoks doc.kids).drop (r.end_ k) ∧
+    fsize doc'.kids = fsize doc.kids + 2 * depth ∧
+    ∀ j, r.start k ≤ j → j ≤ r.end_ k + 2 * depth → (k : Int) ≤ balance ((ftoks doc'.kids).take j) := by
+  have R := resolve_resolved hr
+  obtain ⟨_, hd2, _⟩ := canSplit_not_across_isolating S doc pos depth r hr hcs
+  obtain ⟨hkb, _⟩ := canSplit_stays_inside S doc pos depth r hr hcs k hk hiso
+  have hdk : depth + k ≤ r.depth := by omega
+  have hdoc : doc.isLeaf = false := by
+    have hd := R.depth_eq
+    cases doc with
+    | elem => rfl
+    | text s m => simp [Node.kids, depthAt] at hd; omega
+    | leaf ty a m => simp [Node.kids, depthAt] at hd; omega
+  obtain ⟨sl, rfl, hwf, hos, hoe, hsz⟩ := splitStep_shape depth st hdoc hst
+  have pin := R.pos_in k hk
+  obtain ⟨hs1, hb⟩ := ancestor_window_in_doc hr k hk1 hk
+  have hm : insideNode (r.start k - 1) (r.end_ k + 1) (.replace pos pos sl true) = true := by
+    simp only [insideNode, Bool.and_eq_true, decide_eq_true_eq]
+    omega
+  obtain ⟨o1, o2, _⟩ := inside_ancestor_preserves_outside S doc doc' pos r hr k hk1 hk _ hm
+    (fun f t gf gt sl' i c e => by simp at e) h
+  obtain ⟨etoks, _, _, _⟩ := apply_replace_toks S doc doc' pos pos sl true h
+  have hlen : sl.toks.length = 2 * depth := by
+    have := wf_opens_le hwf
+    simp only [Slice.size] at hsz
+    simp only [Slice.toks, List.length_take, List.length_drop, ftoks_length]
+    omega
+  have hsize : fsize doc'.kids = fsize doc.kids + 2 * depth := by
+    have hl := congrArg List.length etoks
+    simp only [List.length_append, List.length_take, List.length_drop, ftoks_length, hlen] at hl
+    have := R.le
+    omega
+  refine ⟨hdk, hm, o1, o2, hsize, ?_⟩
+  intro j h1 h2
+  rw [etoks]
+  have hbp := balance_take_pos hr
+  refine splice_keeps_level (ftoks doc.kids) sl.toks (r.start k) (r.end_ k) pos pos k (Nat.le_refl _)
+    pin.1 pin.2 (by rw [ftoks_length]; omega) (fun j' a b => balance_in_ancestor hr k hk j' a b) ?_ ?_ j h1
+    (by rw [hlen]; omega)
+  · intro i
+    have := sliceToks_balance_ge sl hwf i
+    rw [hbp, hos] at *
+    omega
+  · rw [sliceToks_balance sl hwf, hos, hoe]; omega
+
+/-! ## Node-level edits addressed at a node inside: `set_node_markup` (model PM/TypePlan.lean) -/
+
+/-- a node created by `NodeType.create(attrs, None, marks)` has at least one token -/
+theorem createNode_size_pos (S : Schema) (ty : TypeId) (attrs : Attrs) (marks : Marks) (nn : Node)
+    (h : S.createNode ty attrs marks = .ok nn) : 1 ≤ nn.size := by
+  unfold Schema.createNode at h
+  simp only at h
+  split at h
+  · simp at h
+  · cases hc : computeAttrs (S.nodeType ty).attrs attrs with
+    | error e => rw [hc] at h; simp [Except.map] at h
+    | ok a =>
+      rw [hc] at h
+      simp only [Except.map, Except.ok.injEq] at h
+      subst h
+      split <;> simp [Node.size]
+
+/-- **`set_node_markup` at a node inside**: the node found at `pos` lies strictly between the open
+    token (at `a`) and the close token (at `b − 1`) of a node occupying `[a, b)`.  Whatever new type,
+    attributes and marks are requested, if the operation succeeds (without the Fitter: `fits = []`,
+    as in `setNodeMarkup_spec`, Props/C13.lean) every token up to and including the open token at `a`
+    and from the close token at `b − 1` on is unchanged. -/
+theorem setNodeMarkup_inside (S : Schema) (st st' : PSt) (pos : Nat) (ty : Option TypeId)
+    (attrs : Attrs) (marks : Option Marks) (a b : Nat) (hb : b ≤ fsize st.tr.doc.kids)
+    (node : Node) (hn : st.tr.doc.nodeAt pos = .ok (some node))
+    (ha : a < pos) (hpb : pos + node.size < b) (hfit : st.fits = [])
+    (h : st.setNodeMarkup S pos ty attrs marks = .ok st') :
+    (ftoks st'.tr.doc.kids).take (a + 1) = (ftoks st.tr.doc.kids).take (a + 1) ∧
+    (ftoks st'.tr.doc.kids).drop (b - 1 + fsize st'.tr.doc.kids - fsize st.tr.doc.kids) =
+      (ftoks st.tr.doc.kids).drop (b - 1) ∧
+    fsize st.tr.doc.kids ≤ b - 1 + fsize st'.tr.doc.kids := by
+  unfold PSt.setNodeMarkup at h
+  rw [hn] at h
+  simp only at h
+  split at h
+  · simp at h
+  · rename_i newNode hcreate
+    have hsz := createNode_size_pos S _ _ _ newNode hcreate
+    split at h
+    · -- leaf: a plain replace of the node's window
+      rcases PSt.replace_nofit S st st' _ _ _ hfit h with ⟨rfl, _, _⟩ | ⟨_, hstep⟩
+      · exact ⟨rfl, by rw [Nat.add_sub_cancel], by omega⟩
+      · obtain ⟨hap, _⟩ := PSt.step_facts S st st' _ hstep
+        exact inside_preserves_outside S _ _ a b _ hb
+          (by simp only [insideNode, Bool.and_eq_true, decide_eq_true_eq]; omega)
+          (fun f t gf gt sl i c e => by simp at e) hap
+    · rename_i hnl
+      split at h
+      · simp at h
+      · obtain ⟨hap, _⟩ := PSt.step_facts S st st' _ h
+        have hns : 2 ≤ node.size := by
+          cases node with
+          | elem t at_ m kids => simp [Node.size]
+          | text => simp [Node.isLeaf] at hnl
+          | leaf => simp [Node.isLeaf] at hnl
+        refine inside_preserves_outside S _ _ a b _ hb
+          (by simp only [retypeStep, insideNode, Bool.and_eq_true, decide_eq_true_eq]; omega) ?_ hap
+        intro f t gf gt sl i c e
+        simp only [retypeStep, Step.replaceAround.injEq] at e
+        obtain ⟨rfl, rfl, rfl, rfl, rfl, rfl, _⟩ := e
+        refine ⟨by simp [Slice.wf], ?_, by omega, by omega, by omega⟩
+        simp only [Slice.size, fsize]
+        omega
+
+/-! ## `set_block_type` over a range inside (model PM/TypePlan.lean, whole-walk spec `setBlockType_spec`, Props/C13.lean) -/
+
+/-- the run only ever appends to the rewritten prefix (as `SbtRun.grows`, Props/C13.lean, which this file
+    does not import) -/
+theorem sbtRun_grows {S : Schema} {ty : TypeId} {attrs : Attrs} {L0 : List Tok} {vs : List NV}
+    {skip skip' : Nat} {X X' : List Tok} (h : SbtRun S ty attrs L0 vs skip X skip' X') :
+    ∃ Y, X' = X ++ Y := by
+  induction h with
+  | done => exact ⟨[], by simp⟩
+  | pass _ _ _ _ _ _ _ _ ih => exact ih
+  | conv v _ sk _ _ _ nn _ _ _ _ _ _ ih =>
+    obtain ⟨Y, hY⟩ := ih
+    exact ⟨(L0.drop sk).take (v.pos - sk) ++ (convToks S ty nn v.node.kids ++ Y),
+      by rw [hY]; simp only [List.append_assoc]⟩
+
+/-- the whole walk of `set_block_type` in terms of `SbtRun` (the statement of `setBlockType_spec`,
+    Props/C13.lean, re-derived from Proofs/TypePlan.lean to keep this file's imports small) -/
+theorem setBlockType_run (S : Schema) (st st' : PSt) (f t : Nat) (ty : TypeId) (attrs : Attrs)
+    (hfit : st.fits = []) (hms : st.tr.maps.length = st.tr.steps.length)
+    (hnorm : fnorm st.tr.doc.kids = true)
+    (hty : (S.nodeType ty).isLeaf = false)
+    (hblocks : ∀ v ∈ S.docVisits st.tr.doc f t, S.isTextblockN v.node = true → v.node.isLeaf = false)
+    (h : st.setBlockType S f t ty attrs = .ok st') :
+    ∃ skip' X', SbtRun S ty attrs (ftoks st.tr.doc.kids) (S.docVisits st.tr.doc f t) 0 [] skip' X' ∧
+      ftoks st'.tr.doc.kids = X' ++ (ftoks st.tr.doc.kids).drop skip' := by
+  unfold PSt.setBlockType at h
+  simp only at h
+  split at h
+  · simp at h
+  · split at h
+    · simp at h
+    · rename_i st2 skip2 hfold
+      split at h
+      · simp at h
+      · simp only [Except.ok.injEq] at h
+        subst h
+        have hI : SbtInv (ftoks st.tr.doc.kids) st.tr.steps.length st 0 [] :=
+          { toks := by simp
+            maps := by
+              intro p _
+              rw [List.drop_of_length_le (by omega)]
+              simp
+            fits := hfit
+            mf_le := by omega
+            skip_le := Nat.zero_le _
+            norm := hnorm }
+        obtain ⟨X', hr, hI'⟩ := sbt_fold S ty attrs st.tr.steps.length (ftoks st.tr.doc.kids) hty
+          (S.docVisits st.tr.doc f t) st 0 [] st2 skip2
+          (fun v hv => by
+            obtain ⟨h1, h2⟩ := docVisits_window S st.tr.doc f t v hv
+            exact ⟨h1, h2 hnorm, hblocks v hv⟩)
+          hI hfold
+        exact ⟨skip2, X', hr, hI'.toks⟩
+
+/-- the run of `set_block_type` never moves `skip` past the end of the last convertible block -/
+theorem sbtRun_skip_le {S : Schema} {ty : TypeId} {attrs : Attrs} {L0 : List Tok} {vs : List NV}
+    {skip skip' : Nat} {X X' : List Tok} (h : SbtRun S ty attrs L0 vs skip X skip' X') (B : Nat)
+    (hv : ∀ v ∈ vs, S.isTextblockN v.node = true → v.pos + v.node.size ≤ B) (hs : skip ≤ B) :
+    skip' ≤ B := by
+  induction h with
+  | done => exact hs
+  | pass v vs _ _ _ _ _ _ ih => exact ih (fun w hw => hv w (by simp [hw])) hs
+  | conv v vs _ _ _ _ _ _ htb _ _ _ _ ih =>
+    exact ih (fun w hw => hv w (by simp [hw])) (hv v (by simp) htb)
+
+/-- the run of `set_block_type` copies everything in front of the first convertible block -/
+theorem sbtRun_prefix {S : Schema} {ty : TypeId} {attrs : Attrs} {L0 : List Tok} {vs : List NV}
+    {skip skip' : Nat} {X X' : List Tok} (h : SbtRun S ty attrs L0 vs skip X skip' X') (A : Nat)
+    (hv : ∀ v ∈ vs, S.isTextblockN v.node = true → A ≤ v.pos) (hs : skip ≤ A) :
+    ∃ R, X' ++ L0.drop skip' = X ++ (L0.drop skip).take (A - skip) ++ R := by
+  induction h with
+  | done sk X0 =>
+    exact ⟨(L0.drop sk).drop (A - sk), by rw [List.append_assoc, List.take_append_drop]⟩
+  | pass v vs _ _ _ _ _ _ ih => exact ih (fun w hw => hv w (by simp [hw])) hs
+  | conv v vs sk X0 sk' X1 nn hsk htb _ _ _ hrun _ =>
+    obtain ⟨Y, hY⟩ := sbtRun_grows hrun
+    have hA := hv v (by simp) htb
+    have e : (L0.drop sk).take (v.pos - sk) =
+        (L0.drop sk).take (A - sk) ++ ((L0.drop sk).drop (A - sk)).take (v.pos - A) := by
+      conv => lhs; rw [show v.pos - sk = (A - sk) + (v.pos - A) by omega, List.take_add]
+    refine ⟨((L0.drop sk).drop (A - sk)).take (v.pos - A) ++ convToks S ty nn v.node.kids ++ Y ++ L0.drop sk', ?_⟩
+    rw [hY, e]
+    simp only [List.append_assoc]
+
+/-- **`set_block_type` over a range inside — proved part.**  Hypotheses of `setBlockType_spec` plus
+    `hvis`: every textblock that `nodes_between(f, t)` visits lies strictly between the open token (at
+    `a`) and the close token (at `b − 1`) of the node occupying `[a, b)`.  Then, whatever type and
+    attributes are requested, every token up to and including the open token and from the close token
+    on is unchanged.
+
+    Full statement (not proved here): for `a < f ≤ t < b` with `[a, b)` an isolating node that is not
+    itself a textblock, `hvis` holds — the visited nodes are the nodes overlapping `[f, t]`, i.e. the
+    ancestors of the isolating node (none a textblock, since they contain a block), the node itself,
+    and nodes inside its content.  Missing: the laminarity lemma "a visited node's window that overlaps
+    `[f, t] ⊆ (a, b − 1)` either contains `[a, b)` or lies inside `(a, b − 1)`" for `nodesBetweenP`.
+    `hvis` is decidable and is what the isolating node being a textblock would break: `set_block_type`
+    retypes an isolating *textblock* when its parent accepts the new type (`can_change_type` does not
+    look at `isolating`). -/
+theorem setBlockType_inside_partial (S : Schema) (st st' : PSt) (f t : Nat) (ty : TypeId) (attrs : Attrs)
+    (a b : Nat) (hab : a + 1 ≤ b - 1) (hb : b ≤ fsize st.tr.doc.kids)
+    (hfit : st.fits = []) (hms : st.tr.maps.length = st.tr.steps.length)
+    (hnorm : fnorm st.tr.doc.kids = true)
+    (hty : (S.nodeType ty).isLeaf = false)
+    (hblocks : ∀ v ∈ S.docVisits st.tr.doc f t, S.isTextblockN v.node = true → v.node.isLeaf = false)
+    (hvis : ∀ v ∈ S.docVisits st.tr.doc f t, S.isTextblockN v.node = true →
+      a < v.pos ∧ v.pos + v.node.size < b)
+    (h : st.setBlockType S f t ty attrs = .ok st') :
+    (ftoks st'.tr.doc.kids).take (a + 1) = (ftoks st.tr.doc.kids).take (a + 1) ∧
+    (ftoks st'.tr.doc.kids).drop (b - 1 + fsize st'.tr.doc.kids - fsize st.tr.doc.kids) =
+      (ftoks st.tr.doc.kids).drop (b - 1) ∧
+    fsize st.tr.doc.kids ≤ b - 1 + fsize st'.tr.doc.kids := by
+  obtain ⟨skip', X', hrun, hfinal⟩ :=
+    setBlockType_run S st st' f t ty attrs hfit hms hnorm hty hblocks h
+  have hL : (ftoks st.tr.doc.kids).length = fsize st.tr.doc.kids := ftoks_length _
+  have hL' : (ftoks st'.tr.doc.kids).length = fsize st'.tr.doc.kids := ftoks_length _
+  generalize ftoks st.tr.doc.kids = L at *
+  generalize ftoks st'.tr.doc.kids = L' at *
+  have hsk := sbtRun_skip_le hrun (b - 1) (fun v hv htb => by have := hvis v hv htb; omega) (by omega)
+  obtain ⟨R, hR⟩ := sbtRun_prefix hrun (a + 1) (fun v hv htb => by have := hvis v hv htb; omega) (by omega)
+  simp only [List.drop_zero, Nat.sub_zero, List.nil_append] at hR
+  -- the suffix: `L' = X' ++ L[skip' : b-1] ++ L[b-1 :]`
+  have hsuf : L' = (X' ++ (L.drop skip').take (b - 1 - skip')) ++ L.drop (b - 1) := by
+    rw [hfinal, List.append_assoc]
+    congr 1
+    have : L.drop (b - 1) = (L.drop skip').drop (b - 1 - skip') := by
+      rw [List.drop_drop]; congr 1; omega
+    rw [this, List.take_append_drop]
+  have hlen := congrArg List.length hsuf
+  simp only [List.length_append, List.length_drop] at hlen
+  refine ⟨?_, ?_, by omega⟩
+  · rw [hfinal, hR, List.take_append_of_le_length (by simp; omega), List.take_take]
+    congr 1
+    omega
+  · have : b - 1 + fsize st'.tr.doc.kids - fsize st.tr.doc.kids =
+        (X' ++ (L.drop skip').take (b - 1 - skip')).length := by
+      simp only [List.length_append]
+      omega
+    rw [this]
+    conv => lhs; rw [hsuf]
+    exact List.drop_left' rfl
+
+/-! ### concrete instances: an isolating node inside a blockquote (the shape of the seeded `block_range` change)
+
+`doc: block+`, `blockquote: block+`, `iso: block+` (isolating), `paragraph: text*`.
+* `isoDoc = doc(blockquote(iso(p("a"))))`: the selection `3 … 5` (from inside the paragraph to the end of the
+  isolating node's content) and the selection `2 … 5` (the node's whole content) have the block range `(2, 2, 5)` —
+  depth `k = 2`, exactly the content window, not the node itself at depth `k − 1 = 1` (which a `<` for `<=` at the end
+  boundary answers, and whose lift moves the isolating node out of the blockquote); `lift_target` of that range is
+  `None` (the loop stops at the isolating node).  The collapsed selection `2 … 2` has the node itself, `(1, 1, 6)`.
+* `isoDoc2 = doc(blockquote(iso(blockquote(p("ab")))))`: the selection `4 … 5` has the block range `(3, 3, 7)`, its
+  lift target is `2` — the isolating node, not the outer blockquote —, and the lift step `2 … 8` lies inside `[1, 9)`.
+  `can_split(5, depth)` approves depths 1 and 2 (paragraph, inner blockquote) and refuses 3 (the isolating node).
+* wrapping the range `(2, 2, 5)` of `isoDoc` in a blockquote: the step covers `2 … 5`.
+That approved lifts / wraps / splits of this kind apply: Props/C12.lean (`liftTarget_lift_applies`, …). -/
+
+private def isoNT (name : String) (text inlineContent iso : Bool) (dfa : Array DfaState) : NodeType :=
+  { name := name, isText := text, isInline := text, isLeaf := text, isAtom := text, inlineContent := inlineContent,
+    isolating := iso, defining := false, code := false, dfa := dfa, markSet := none, attrs := [] }
+
+private def isoBlocks : Array DfaState := #[⟨false, [(1, 1), (2, 1), (3, 1)]⟩, ⟨true, [(1, 1), (2, 1), (3, 1)]⟩]
+
+/-- `doc: block+`, `blockquote: block+`, `iso: block+` (isolating), `paragraph: text*` -/
+private def isoSchema : Schema :=
+  { nodes := #[isoNT "doc" false false false isoBlocks, isoNT "blockquote" false false false isoBlocks,
+      isoNT "iso" false false true isoBlocks, isoNT "paragraph" false true false #[⟨true, [(4, 0)]⟩],
+      isoNT "text" true false false #[⟨true, []⟩]],
+    marks := #[], top := 0, textTy := 4 }
+
+private def p (s : List Nat) : Node := .elem 3 [] [] [.text s []]
+/-- `doc(blockquote(iso(p("a"))))`: the isolating node occupies `[1, 6)`, its content window is `[2, 5]`, depth 2 -/
+private def isoDoc : Node := .elem 0 [] [] [.elem 1 [] [] [.elem 2 [] [] [p [97]]]]
+/-- `doc(blockquote(iso(blockquote(p("ab")))))`: the isolating node occupies `[1, 9)`, content window `[2, 8]` -/
+private def isoDoc2 : Node := .elem 0 [] [] [.elem 1 [] [] [.elem 2 [] [] [.elem 1 [] [] [p [97, 98]]]]]
+
+example : (isoDoc.resolve 3).map (fun r => (r.depth, r.start 2, r.end_ 2, isoSchema.isolating (r.node 2),
+    C09.brShrink isoSchema r 3 5)) = some (3, 2, 5, true, 1) := by decide
+example : blockRange isoSchema isoDoc 3 5 = .ok (some (2, 2, 5)) := by rfl
+example : blockRange isoSchema isoDoc 2 5 = .ok (some (2, 2, 5)) := by rfl
+example : blockRange isoSchema isoDoc 2 2 = .ok (some (1, 1, 6)) := by rfl
+example : liftTarget isoSchema isoDoc 3 5 2 = some none := by decide
+example : blockRange isoSchema isoDoc2 4 5 = .ok (some (3, 3, 7)) := by rfl
+example : liftTarget isoSchema isoDoc2 4 5 3 = some (some 2) := by decide
+example : liftStep isoDoc2 4 5 3 2 = .ok (.replaceAround 2 8 3 7 ⟨[], 0, 0⟩ 0 true) := by rfl
+example : canSplit isoSchema isoDoc2 5 1 = some true ∧ canSplit isoSchema isoDoc2 5 2 = some true ∧
+    canSplit isoSchema isoDoc2 5 3 = some false := by decide
+example : splitStep isoDoc2 5 2 = .ok (.replace 5 5
+    ⟨[.elem 1 [] [] [.elem 3 [] [] []], .elem 1 [] [] [.elem 3 [] [] []]], 2, 2⟩ true) := by rfl
+example : findWrappingRange isoSchema isoDoc 3 5 2 1 = some (some [1]) := by decide
+example : wrapStep isoSchema isoDoc 3 5 2 [(1, [])] =
+    .ok (.replaceAround 2 5 2 5 ⟨[.elem 1 [] [] []], 0, 0⟩ 1 true) := by rfl
+/-- the hypotheses of `setNodeMarkup_inside` on `isoDoc` (the isolating node occupies `[1, 6)`): the node at
+    position 2 is the paragraph, `1 < 2` and `2 + 3 < 6` -/
+example : isoDoc.nodeAt 2 = .ok (some (p [97])) ∧ (p [97]).size = 3 := by
+  simp [Node.nodeAt, nodeAtKids, isoDoc, p, Node.kids, Node.size, fsize]
 
 end PM.C18
